@@ -9,15 +9,19 @@ dirs="$@"; [ -z "$dirs" ] && dirs=$(ls -d /verif/seeded/C*)
 miss=0; n=0; stale=0
 for d in $dirs; do
   id=$(basename $d); prop=$(echo $id | cut -c1-3)
-  git -C "$R" checkout -q -- . 
+  git -C "$R" reset -q --hard; git -C "$R" clean -qfd
   if ! git -C "$R" apply "$d/patch.diff" 2>/dev/null; then
-    if ! git -C "$R" apply -3 "$d/patch.diff" >/dev/null 2>&1; then echo "$id: STALE (patch no longer applies to the repaired tree)"; stale=$((stale+1)); git -C "$R" checkout -q -- . ; continue; fi
+    echo "$id: STALE (patch no longer applies to the repaired tree)"; stale=$((stale+1)); continue
   fi
   n=$((n+1))
   demo=$(PYTHONPATH=$R/src /venv/bin/python -W ignore "$d/demo.py" >/dev/null 2>&1; echo $?)
   out=$(cd /verif && VERIF_OUT=$R/.verif_out SERIF_REPO=$R ./check $prop 2>&1 | grep -E "^(OK|VIOLATION|MACHINERY)" | head -1 | cut -c1-70)
   clause=$(cd $R/.verif_out 2>/dev/null && ls -t violations/$prop-*.json 2>/dev/null | head -1 | xargs -r /venv/bin/python -c "import json,sys; v=json.load(open(sys.argv[1])); print(v.get('clause'),'@',v.get('suite'))" 2>/dev/null)
-  case "$out" in VIOLATION*) echo "$id: demo_exit=$demo caught  $clause";; *) echo "$id: demo_exit=$demo MISSED  $out"; miss=$((miss+1));; esac
+  case "$out" in
+    VIOLATION*) echo "$id: demo_exit=$demo caught  $clause";;
+    *) if [ "$demo" = "0" ]; then echo "$id: INEFFECTIVE on the repaired tree (its demonstration passes with the change applied)"; stale=$((stale+1));
+       else echo "$id: demo_exit=$demo MISSED  $out"; miss=$((miss+1)); fi;;
+  esac
 done
 echo "SUMMARY applied=$n missed=$miss stale=$stale"
 [ $miss -eq 0 ]
